@@ -157,42 +157,54 @@ def uint_of_width(w, rng):
     return rng.choice([lo, hi, rng.randint(lo, hi)])
 
 
-def make_signer(sg, rng, pool, kl, target=True):
-    """-> (Recorder or None, verifier-key description)"""
+def make_inner(sg, pool, kl):
+    """The real (or synthetic) signer object for a signer model; None for an unsigned packet."""
     k = sg['kind']
     if k == 'none':
         return None
     if k in ('digest', 'digestI'):
-        inner = DigestSha256Signer(for_interest=(k == 'digestI'))
-    elif k == 'hmac':
-        inner = HmacSha256Signer(kl, pool.hmac)
-    elif k == 'rsa':
-        inner = Sha256WithRsaSigner(kl, pool.rsa[0])
-    elif k == 'ed25519':
-        inner = Ed25519Signer(kl, pool.ed[0])
-    elif k == 'null':
-        inner = NullSigner()
-    elif k == 'ecdsa':
-        inner = Sha256WithEcdsaSigner(kl, pool.ec[sg['r']][0])
-    elif k == 'syn':
-        inner = SynSigner(sg['r'], sg['a'], sg['st'], kl if sg['haskl'] else None)
-    else:
-        raise MachineryError('unknown signer kind %r' % k)
-    return Recorder(inner, target=sg['a'] if (k == 'ecdsa' and target) else None)
+        return DigestSha256Signer(for_interest=(k == 'digestI'))
+    if k == 'hmac':
+        return HmacSha256Signer(kl, pool.hmac)
+    if k == 'rsa':
+        return Sha256WithRsaSigner(kl, pool.rsa[0])
+    if k == 'ed25519':
+        return Ed25519Signer(kl, pool.ed[0])
+    if k == 'null':
+        return NullSigner()
+    if k == 'ecdsa':
+        return Sha256WithEcdsaSigner(kl, pool.ec[sg['r']][0])
+    if k == 'syn':
+        return SynSigner(sg['r'], sg['a'], sg['st'], kl if sg['haskl'] else None)
+    raise MachineryError('unknown signer kind %r' % k)
+
+
+def make_signer(sg, rng, pool, kl, target=True, inner=None):
+    """-> Recorder around a fresh signer (or around `inner`, a signer object that is being reused), or None"""
+    if inner is None:
+        inner = make_inner(sg, pool, kl)
+    if inner is None:
+        return None
+    return Recorder(inner, target=sg['a'] if (sg['kind'] == 'ecdsa' and target) else None)
 
 
 class Built:
     pass
 
 
-def build(cfg, rng, pool, target=True, name_form='list'):
+def build(cfg, rng, pool, target=True, name_form='list', live=None):
     """Call the real make_interest / make_data for the abstract cfg. Returns Built with
-    .wire (bytes) or .exc, .rec (Recorder or None) and the concrete inputs."""
+    .wire (bytes) or .exc, .rec (Recorder or None) and the concrete inputs.
+    live = (signer object, its key-locator name): sign with this long-lived signer instead of a fresh one."""
     b = Built()
     b.cfg = cfg
     b.comps = name_bytes(cfg['name'], rng)
-    b.kl = name_bytes(cfg['sg']['kl'], rng) if cfg['sg']['haskl'] else None
-    b.rec = make_signer(cfg['sg'], rng, pool, b.kl, target)
+    if live is not None:
+        b.kl = live[1]
+        b.rec = make_signer(cfg['sg'], rng, pool, b.kl, target, inner=live[0])
+    else:
+        b.kl = name_bytes(cfg['sg']['kl'], rng) if cfg['sg']['haskl'] else None
+        b.rec = make_signer(cfg['sg'], rng, pool, b.kl, target)
     b.exc = None
     b.wire = None
     b.final_name = None
